@@ -6,6 +6,7 @@ import (
 	"io"
 	"strings"
 	"sync"
+	"sync/atomic"
 	"time"
 
 	goat "github.com/avos-io/goat"
@@ -62,6 +63,9 @@ func c20List(tier string) []c20Case {
 			}
 			out = append(out, c20Case{Kind: "conn-end/" + v, Outcome: cause, StatsSrv: 1 + (i+j)%3})
 		}
+	}
+	for i, cause := range []string{"read-failure", "stop", "write-failure"} {
+		out = append(out, c20Case{Kind: "taken-not-registered/unary", Outcome: cause, StatsSrv: 1 + i%2})
 	}
 	for i, v := range []string{"0m", "1n", "0S"} {
 		out = append(out, c20Case{Kind: "expired-on-arrival/" + v, Outcome: "deadline-already-over", SrvChain: 1 + i, StatsSrv: 1 + i%2})
@@ -288,6 +292,135 @@ func c20ConnEnd(tier string, seed int64, idx int, c c20Case, res *core.Result) {
 	}
 }
 
+// c20GateCtx is the context given to Serve: it is never cancelled, and the first goroutine that asks
+// for its Done channel - a unary worker deriving the call's context from it, after it took the
+// request off the connection and before it registers the call with the connection - is held there
+// until release is closed.
+type c20GateCtx struct {
+	context.Context
+	once    sync.Once
+	reached chan struct{}
+	release chan struct{}
+}
+
+func (g *c20GateCtx) Done() <-chan struct{} {
+	g.once.Do(func() {
+		close(g.reached)
+		<-g.release
+	})
+	return nil
+}
+
+// c20TakenNotRegistered: a unary request is taken by a worker just before the connection ends and
+// is registered with the connection only after Serve has swept its calls. It is an RPC all the
+// same: its handler's context ends, the handler returns, and every stats handler that saw its
+// Begin sees its End.
+func c20TakenNotRegistered(tier string, seed int64, idx int, c c20Case, res *core.Result) {
+	rec := &c20Rec{}
+	var sopts []goat.ServerOption
+	for j := 0; j < c.StatsSrv; j++ {
+		sopts = append(sopts, goat.StatsHandler(&c20Stats{rec, "s", j}))
+	}
+	h := bed.NewHooks()
+	h.Install()
+	impl := svc.NewImpl()
+	srv := goat.NewServer("srv", sopts...)
+	srv.RegisterService(&svc.Desc, impl)
+	giveUp := make(chan struct{})
+	var returned, ctxEnded atomic.Bool
+	impl.DefU = func(ctx context.Context, tag string, req []byte) ([]byte, error) {
+		defer returned.Store(true)
+		select {
+		case <-ctx.Done():
+			ctxEnded.Store(true)
+			return nil, ctx.Err()
+		case <-giveUp:
+			return nil, fmt.Errorf("handler context never ended")
+		}
+	}
+	l := wire.NewLink(0, idx%2 == 0)
+	g := &c20GateCtx{Context: context.Background(), reached: make(chan struct{}), release: make(chan struct{})}
+	pctx, pcancel := context.WithCancel(context.Background())
+	defer pcancel()
+	served := make(chan struct{})
+	go func() { srv.Serve(g, l.B); close(served) }()
+	wire.NewPeer(pctx, l.A, nil)
+	body, _ := proto.Marshal(&svc.BV{Value: []byte("x")})
+	go l.A.Write(pctx, &wire.Rpc{Id: 1, Header: &goatorepo.RequestHeader{Method: svc.MUnary, Source: "c0", Destination: "srv"}, Body: &goatorepo.Body{Data: body}})
+	reached := false
+	settle(tier, func() bool {
+		select {
+		case <-g.reached:
+			reached = true
+		default:
+		}
+		return reached
+	})
+	if !reached {
+		res.Verdict, res.Note = core.Inconclusive, "no worker asked for the Serve context's Done channel"
+		close(g.release)
+		close(giveUp)
+	} else {
+		switch c.Outcome {
+		case "stop":
+			srv.Stop()
+		case "write-failure":
+			l.B.FailWrite()
+			srv.Stop() // nothing is being written: Stop ends the connection whose write side is already broken
+		default:
+			l.B.FailRead()
+		}
+		st, snap := settle(tier, func() bool {
+			select {
+			case <-served:
+				return true
+			default:
+				return false
+			}
+		})
+		close(g.release) // the worker goes on: it registers the call now
+		if st == "stuck" {
+			res.ViolateD("serve-does-not-return", map[string]any{"goat_goroutines": goatParked(snap)}, "%s, %s: Serve did not return", c.Kind, c.Outcome)
+		} else if st != "ok" {
+			res.Verdict, res.Note = core.Inconclusive, "watchdog"
+		} else {
+			quiet(tier)
+			if !returned.Load() {
+				res.Violate("handler-context-never-ends/unary-taken-as-connection-ends", "a unary request taken by a worker just before the connection ended (%s) and registered after Serve's sweep: its handler's context never ends (final state)", c.Outcome)
+			}
+			rec.mu.Lock()
+			for j := 0; j < c.StatsSrv; j++ {
+				nb, ne := 0, 0
+				for _, e := range rec.evs {
+					if !e.Conn && e.Side == "s" && e.Handler == j {
+						if e.Type == "*stats.Begin" {
+							nb++
+						}
+						if e.Type == "*stats.End" {
+							ne++
+						}
+					}
+				}
+				if nb != ne {
+					res.Violate("stats-begin-end-count/s/unary-taken-as-connection-ends", "server stats handler %d saw %d Begin and %d End for the unary call taken as the connection ended (%s)", j, nb, ne, c.Outcome)
+				}
+			}
+			rec.mu.Unlock()
+			res.Stat("unary_taken_not_registered_cases", 1)
+		}
+		close(giveUp)
+	}
+	pcancel()
+	l.Kill()
+	srv.Stop()
+	left, final := bed.Hygiene(watchdog(tier))
+	bed.Uninstall()
+	h.Fold(res)
+	if !final || len(left) > 0 {
+		res.Retire = true
+	}
+}
+
 type c20Event struct {
 	Side    string // "c" / "s"
 	Handler int
@@ -371,6 +504,10 @@ func c20Run(tier string, seed int64, idx int) *core.Result {
 	}
 	if strings.HasPrefix(c.Kind, "conn-end/") {
 		c20ConnEnd(tier, seed, idx, c, res)
+		return res
+	}
+	if strings.HasPrefix(c.Kind, "taken-not-registered/") {
+		c20TakenNotRegistered(tier, seed, idx, c, res)
 		return res
 	}
 	rec := &c20Rec{}
@@ -805,7 +942,7 @@ func init() {
 	core.Register(&core.Prop{
 		ID:             "C20",
 		Level:          "exploration",
-		Rule:           "one RPC per case over the cross product server interceptor chain length 1..6 (ChainUnary/ChainStreamInterceptor, and the single-interceptor options for length 1) x client interceptor {none, one} x 1..3 stats handlers per side x 4 RPC kinds x 9 outcomes {ok, handler error, handler failing with io.EOF, cancel, cancel while a response sits uncollected in the read loop, manual deadline, transport failure, open failing in the transport write, call on a connection whose read already failed} (quick: a fixed third of the middle chain lengths). Every interceptor records enter/exit and edits context metadata, request, reply and error; every stats handler tags the context with a fresh token. Plus connection-level cases: one ConnBegin/ConnEnd per served connection when it ends by Stop / write failure / read failure while idle, while all 8 unary workers are busy with more requests pending, and while a stream whose handler does not read has a full queue. All cases are distinct tuples and non-trivial.",
+		Rule:           "one RPC per case over the cross product server interceptor chain length 1..6 (ChainUnary/ChainStreamInterceptor, and the single-interceptor options for length 1) x client interceptor {none, one} x 1..3 stats handlers per side x 4 RPC kinds x 9 outcomes {ok, handler error, handler failing with io.EOF, cancel, cancel while a response sits uncollected in the read loop, manual deadline, transport failure, open failing in the transport write, call on a connection whose read already failed} (quick: a fixed third of the middle chain lengths). Every interceptor records enter/exit and edits context metadata, request, reply and error; every stats handler tags the context with a fresh token. Plus connection-level cases: one ConnBegin/ConnEnd per served connection when it ends by Stop / write failure / read failure while idle, while all 8 unary workers are busy with more requests pending, and while a stream whose handler does not read has a full queue. Plus a unary request that a worker takes off the connection just before the connection ends (read failure / Stop / write failure) and that registers with the connection only after Serve's sweep of its calls (the worker is held inside the Serve context's Done method): its handler's context must end and every Begin has its End. All cases are distinct tuples and non-trivial.",
 		Plan:           func(tier string, seed int64) int { return len(c20List(tier)) },
 		ThoroughRounds: 8,
 		Run:            c20Run,
